@@ -591,7 +591,7 @@ def _emit_fn(out, spec, repo, canary):
         render(name + "__canary", csig, ["[%s:CANARY] false," % (",".join(props) or "X")], [])
         out.canaries.append(name + "__canary")
     bare = [n for n in range(1, len(loops) + 1) if n not in spec["loops"]]
-    out.fns[name] = dict(props=props, file=f.file, line=f.line, rules=hits, bare_loops=bare,
+    out.fns[name] = dict(props=props, file=f.file, line=f.line, rules=hits, bare_loops=bare, item=spec["item"], kw=dict(kw),
                          clauses=[tuple(c) for c in clauses if c[2] != "requires"],
                          requires=[tuple(c) for c in clauses if c[2] == "requires"],
                          real_sig=norm(f.sig))
